@@ -11,10 +11,17 @@ Norm(n, d) == LET g == Gcd(Abs(n), d) IN IF g = 0 THEN <<0, 1>> ELSE <<n \div g,
 R(n) == <<n, 1>>
 RZero == <<0, 1>>
 ROne == <<1, 1>>
-RAdd(a, b) == Norm(a[1] * b[2] + b[1] * a[2], a[2] * b[2])
-RSub(a, b) == Norm(a[1] * b[2] - b[1] * a[2], a[2] * b[2])
-RMul(a, b) == Norm(a[1] * b[1], a[2] * b[2])
-RDiv(a, b) == IF b[1] > 0 THEN Norm(a[1] * b[2], a[2] * b[1]) ELSE Norm(-(a[1] * b[2]), a[2] * (-b[1]))
+\* with early cancellation, so that intermediate products stay small
+RAdd(a, b) == LET g == Gcd(a[2], b[2])
+                  d == (a[2] \div g) * b[2]
+              IN Norm(a[1] * (b[2] \div g) + b[1] * (a[2] \div g), d)
+RSub(a, b) == RAdd(a, <<-b[1], b[2]>>)
+RMul(a, b) == LET g1 == Gcd(Abs(a[1]), b[2])
+                  g2 == Gcd(Abs(b[1]), a[2])
+                  h1 == IF g1 = 0 THEN 1 ELSE g1
+                  h2 == IF g2 = 0 THEN 1 ELSE g2
+              IN Norm((a[1] \div h1) * (b[1] \div h2), (a[2] \div h2) * (b[2] \div h1))
+RDiv(a, b) == IF b[1] > 0 THEN RMul(a, <<b[2], b[1]>>) ELSE RMul(a, <<-b[2], -b[1]>>)
 REq(a, b) == a[1] * b[2] = b[1] * a[2]
 RLt(a, b) == a[1] * b[2] < b[1] * a[2]
 RLe(a, b) == a[1] * b[2] <= b[1] * a[2]
